@@ -57,18 +57,41 @@ def strip_comments(text):
     return "".join(out)
 
 
-def audit_sources():
-    """grep every Lean source of the project for banned constructs outside comments"""
+def import_closure(roots):
+    """Lean source files (within this project) reachable from the given module names"""
+    seen, todo = {}, list(roots)
+    while todo:
+        m = todo.pop()
+        if m in seen: continue
+        path = os.path.join(LEAN, m.replace(".", "/") + ".lean")
+        if not os.path.exists(path):
+            continue   # core / Mathlib module
+        seen[m] = path
+        for line in open(path):
+            mm = re.match(r"\s*(?:public\s+)?import\s+([\w.]+)", line)
+            if mm: todo.append(mm.group(1))
+    return seen
+
+
+def audit_sources(roots):
+    """grep the Lean sources this check depends on (import closure of its theorem module and its
+    drivers) for banned constructs outside comments"""
     hits = []
-    for root in ("OrdModel", "Driver"):
-        for d, _, fs in os.walk(os.path.join(LEAN, root)):
-            for f in fs:
-                if not f.endswith(".lean"): continue
-                p = os.path.join(d, f)
-                for k, line in enumerate(strip_comments(open(p).read()).split("\n"), 1):
-                    if BANNED.search(line):
-                        hits.append(f"{os.path.relpath(p, LEAN)}:{k}: {line.strip()[:120]}")
+    for m, p in sorted(import_closure(roots).items()):
+        for k, line in enumerate(strip_comments(open(p).read()).split("\n"), 1):
+            if BANNED.search(line):
+                hits.append(f"{os.path.relpath(p, LEAN)}:{k}: {line.strip()[:120]}")
     return hits
+
+
+def driver_roots(drivers):
+    """root modules of the lean_exe targets named in lakefile.toml"""
+    text = open(os.path.join(LEAN, "lakefile.toml")).read()
+    roots = []
+    for blk in text.split("[[lean_exe]]")[1:]:
+        n = re.search(r'name\s*=\s*"([^"]+)"', blk); r = re.search(r'root\s*=\s*"([^"]+)"', blk)
+        if n and r and n.group(1) in drivers: roots.append(r.group(1))
+    return roots
 
 
 def lake_build(targets):
@@ -255,7 +278,7 @@ def main():
             if not okd:
                 raise Infra("model driver does not build:\n" + outd[-3000:])
             obligations_broken.append("lake build " + thm["module"] + " failed: " + out[-1500:])
-        hits = audit_sources()
+        hits = audit_sources([thm["module"]] + driver_roots(drivers))
         if hits:
             obligations_broken.append("banned constructs: " + "; ".join(hits[:5]))
         axioms, problems, audit_text = ({}, [], "")
